@@ -202,7 +202,11 @@ def check_scan(ctx, scs, via_cli, scratch):
         p = Path(scratch) / "qc.agp"
         with p.open("w") as fh:
             format_agp(Assembly("a", scaffolds=build_scaffolds(scs)), fh)
-        res = CliRunner().invoke(cli, [str(p), "--qc-overlaps"])
+        if hash(str(scs)) % 2:
+            res = CliRunner().invoke(cli, [str(p), "--qc-overlaps"])
+        else:
+            ctx.count("scan:cli-stdin")
+            res = CliRunner().invoke(cli, ["--qc-overlaps", "-i", "AGP"], input=p.read_text())
         if res.exit_code != 0:
             ctx.violation("qc-cli-failed", f"asm-format --qc-overlaps exit {res.exit_code}: {res.exception!r}", case)
             return
@@ -287,6 +291,7 @@ def gates(c, tier):
         "pairs:different-name": 1000,
         "scan:with-overlaps": 200,
         "scan:cli": 100,
+        "scan:cli-stdin": 30,
         "scan:in-process": 500,
         "monitor_evals:overlaps": 10000,
         "monitor_evals:gap_between": 10000,
